@@ -6,7 +6,8 @@ open StarsimModel.C01
 #print axioms C01_readers_are_known
 #print axioms C01_no_shared_mutable_state
 #print axioms C01_writes_are_reseeding
-#print axioms C01_seed_expressions
+#print axioms C01_seed_derivation
+#print axioms C01_seed_formula_is_model
 #print axioms C01_seed_formula
 #print axioms C01_seed_changes_all
 #print axioms C01_seed_reinit_partial
